@@ -33,6 +33,12 @@ def grid_scenario(rng, key, family=None, fault_kinds=("none",), np_choices=(2, 3
         sc = {"family": "circ", "options": workloads.circ_options(rng, orthogonal=True)}
     elif family == "circ-nonorth":
         sc = {"family": "circ", "options": workloads.circ_options(rng, orthogonal=False)}
+    elif family == "tok-nonorth":
+        geom = rng.choice(("cdn", "udn", "ldn"))
+        sc = {"family": "tok", "geometry": geom,
+              "options": workloads.tok_options(geom, orthogonal=False,
+                                               y_boundary_guards=rng.choice((0, 0, 1))),
+              "npsi": 65, "wall": rng.choice(("rect", "slanted"))}
     else:
         geom = rng.choice(TOK_ORTH_GEOMS) if family == "tok-orth" else family.split(":")[1]
         sc = {"family": "tok", "geometry": geom,
@@ -55,6 +61,8 @@ def c13_grid_case(verif_seed, index, quick=False):
     fam = ("circ-orth", "circ-nonorth", "circ-orth", "tok-orth")[index % 4]
     if quick and fam == "tok-orth":
         fam = "tok:lsn"
+    if not quick and index % 16 == 7:
+        fam = "tok-nonorth"  # double nulls, non-orthogonal: wall intersections, regrids
     kind = ("none", "fallback", "none", "exhaust", "timeout")[index % 5]
     sc = grid_scenario(rng, seed, family=fam, fault_kind=kind)
     return {"index": index, "scenario": sc, "seed": seed}
